@@ -7,7 +7,7 @@ reported to the task whose buffer it was written into.  The read waiter may have
 
 def register(R):
     R.module("verif-stubs/async_backend.py")
-    R.shape("FutureModel", cls="Future", fields={"pending": "bool", "exception_set": "bool", "result_set": "bool", "owner": "none"})
+    R.shape("FutureModel", cls="Future", fields={"pending": "bool", "exception_set": "bool", "result_set": "bool", "owner": "none", "member": "bool", "cb": "none", "value": "opt[int]"})
     R.module("easynetwork/lowlevel/api_async/backend/_asyncio/stream/socket.py")
     R.inline_fn("StreamReaderBufferedProtocol._read_waiter_fut", "StreamReaderBufferedProtocol._wakeup_read_waiter",
                 "StreamReaderBufferedProtocol._maybe_pause_transport")
@@ -16,11 +16,14 @@ def register(R):
         "StreamReaderBufferedProtocolR", cls="StreamReaderBufferedProtocol",
         fields={"__buffer": "opt[bytearray]", "__buffer_view": "viewof:__buffer", "__buffer_nbytes_written": "int",
                 "__external_buffer_view": "opt[view]", "__read_waiter": "opt[FutureModel]", "__connection_lost": "bool", "__eof_reached": "bool",
-                "__read_paused": "bool", "__read_high_water": "int", "__read_low_water": "int", "__transport": "opt[AsyncioTransportModel]"},
+                "__read_paused": "bool", "__read_high_water": "int", "__read_low_water": "int", "__transport": "opt[AsyncioTransportModel]",
+                "__loop": "EventLoopModel", "__connection_lost_exception": "opt[exc:OSError]", "__connection_lost_exception_tb": "opt[obj]"},
         invariant=[
             ("internal-view-is-the-whole-buffer", "implies(not isnone(self.__buffer), view_lo(self.__buffer_view) == 0 and view_hi(self.__buffer_view) == len(self.__buffer))"),
             ("written-count-in-range", "0 <= self.__buffer_nbytes_written and implies(not isnone(self.__buffer), self.__buffer_nbytes_written <= len(self.__buffer))"),
             ("external-buffer-belongs-to-a-registered-waiter", "implies(not isnone(self.__external_buffer_view), not isnone(self.__read_waiter))"),
+            ("water-marks-ordered", "0 <= self.__read_low_water and self.__read_low_water < self.__read_high_water"),
+            ("reading-is-paused-only-above-the-low-water-mark", "implies(self.__read_paused, self.__buffer_nbytes_written > self.__read_low_water)"),
         ],
     )
     ext0 = "not isnone(old(self.__external_buffer_view))"
@@ -35,9 +38,47 @@ def register(R):
              f"implies({ext0}, self.__read_waiter.result_set)", "C10"),
             ("bytes-written-into-the-internal-buffer-are-kept", f"implies(not ({ext0}), self.__buffer_nbytes_written == old(self.__buffer_nbytes_written) + nbytes)", "C10"),
             ("external-buffer-handed-back", "isnone(self.__external_buffer_view)", "C10"),
+            ("reading-is-paused-only-above-the-low-water-mark", "implies(self.__read_paused, self.__buffer_nbytes_written > self.__read_low_water)", "C10"),
         ],
         raises={"NotImplementedError": [("never", "False")]},
-        modifies=["self.__buffer_nbytes_written", "self.__external_buffer_view", "self.__read_waiter.pending", "self.__read_waiter.result_set",
+        modifies=["self.__buffer_nbytes_written", "self.__external_buffer_view", "self.__read_waiter.pending", "self.__read_waiter.result_set", "self.__read_waiter.value",
                   "self.__read_paused", "self.__transport"],
+        tags="C10",
+    )
+
+    # --- the task side: _wait_for_data registers the waiter (and, on the zero-copy path, the caller's buffer) and must take
+    # both back on EVERY exit - a buffer left registered after a cancelled receive is handed to the event loop later on,
+    # when nobody owns it any more.  Callbacks run at its suspension points (rely): they may complete the waiter, clear the
+    # external buffer (never install one), append to the internal buffer, mark eof / loss.
+    R.inline_fn("StreamReaderBufferedProtocol._check_for_connection_lost")
+    W = "self.__read_waiter"
+    taken_back = [
+        ("no-caller-buffer-left-registered (the event loop would write into a buffer nobody owns)", "isnone(self.__external_buffer_view)", "C10"),
+        ("waiter-unregistered", f"isnone({W})", "C10"),
+    ]
+    R.contract(
+        "StreamReaderBufferedProtocol._wait_for_data", self_shape="StreamReaderBufferedProtocolR",
+        params={"requester": "str", "external_buffer": "opt[view]"}, result="opt[int]",
+        requires=[("no-other-receive-is-pending (callers serialise receives; the RuntimeError guard is out of scope)", f"isnone({W})"),
+                  ("hence-no-caller-buffer-is-registered", "isnone(self.__external_buffer_view)")],
+        ensures=taken_back + [
+            ("a-byte-count-is-returned-only-for-bytes-written-into-the-caller's-buffer", "implies(not isnone(result), not isnone(external_buffer))", "C10"),
+        ],
+        raises={"BaseException": taken_back},
+        modifies=[W, "self.__external_buffer_view", "self.__buffer_nbytes_written", "self.__eof_reached", "self.__connection_lost", "self.__read_paused",
+                  "self.__transport", "self.__connection_lost_exception", "self.__connection_lost_exception_tb"],
+        env={
+            "rely_havoc": ["self.__buffer_nbytes_written", "self.__eof_reached", "self.__connection_lost", "self.__read_paused", "self.__transport",
+                           "self.__connection_lost_exception", "self.__external_buffer_view",
+                           f"{W}.pending", f"{W}.result_set", f"{W}.exception_set", f"{W}.value"],
+            "rely_inv": ["implies(isnone(pre(self.__external_buffer_view)), isnone(self.__external_buffer_view))",
+                         f"implies(not pre({W}.pending), not {W}.pending)",
+                         "self.__buffer_nbytes_written >= 0",
+                         "implies(self.__read_paused, self.__buffer_nbytes_written > self.__read_low_water)",
+                         # buffer_updated() hands the caller's buffer back before it stores the byte count (its own contract)
+                         f"implies(not isnone({W}.value) and isnone(pre({W}.value)), isnone(self.__external_buffer_view))",
+                         # a byte count is stored in the waiter only by buffer_updated(), and only for a registered caller buffer
+                         f"implies(not isnone({W}.value), not isnone(pre({W}.value)) or not isnone(pre(self.__external_buffer_view)))"],
+        },
         tags="C10",
     )
